@@ -107,6 +107,8 @@ POOL = {
         "D": [(0.37, 17, 3), (1.0, 40, 100), (2 * np.pi, 30, 400), (0.5, 16, 20)],
     },
 }
+# the monitors' dense NumPy algebra must not spawn a BLAS/OpenMP team per worker (16 workers share the cores)
+ONE_THREAD = {"OMP_NUM_THREADS": "1", "OPENBLAS_NUM_THREADS": "1", "MKL_NUM_THREADS": "1"}
 POSITION_CLASSES = ("uniform", "centre", "centre_ulp", "face", "face_ulp", "cluster", "mixed")
 
 
@@ -117,7 +119,7 @@ def shards(tier, seed):
         for d in (3, 2):  # 3-D first: longest compiles
             for dt in ("float32", "float64"):
                 for k in ib.KERNELS:
-                    out.append({"name": f"{d}d-{dt}-{k}-{v}", "dim": d, "dtype": dt, "kernel": k, "variant": v})
+                    out.append({"name": f"{d}d-{dt}-{k}-{v}", "dim": d, "dtype": dt, "kernel": k, "variant": v, "env": ONE_THREAD})
     return out
 
 
@@ -308,7 +310,7 @@ def run_shard(sh, rec):
     real_t = util.DT[sh["dtype"]]
     eps = util.eps(real_t)
     rng = util.rng_for(seed, ID, sh["name"])
-    target = 2500 if tier == "quick" else 25000  # markers per (dx, N) combination
+    target = 6000 if tier == "quick" else 50000  # markers per (dx, N) combination
     for x_range, nx, N in POOL[d][sh["variant"]]:
         dom0 = make_domain(d, (8,) * (d - 1) + (nx,), x_range, real_t)
         dx_t = dom0.dx
@@ -321,7 +323,7 @@ def run_shard(sh, rec):
             rec.violation("communicator-construction-raises", f"{type(e).__name__}: {e} dx={dxf} N={N}", None)
             rec.case(None)
             continue
-        nb = int(np.clip(target // N, 6 if tier == "quick" else 14, 60 if tier == "quick" else 400))
+        nb = int(np.clip(target // N, 7 if tier == "quick" else 21, 120 if tier == "quick" else 600))
         off = int(rng.integers(len(POSITION_CLASSES)))
         for b in range(nb):
             cls = POSITION_CLASSES[(b + off) % len(POSITION_CLASSES)]
